@@ -647,10 +647,12 @@ func (db *DB) recoverJournal() error {
 		return err
 	}
 
-	// Remove the last obsolete journal file.
+	// Remove the last obsolete journal file. The recovery is committed:
+	// failing to remove it does not fail the open (the file is swept with
+	// the other obsolete files).
 	if !ofd.Zero() {
 		if err := db.s.stor.Remove(ofd); err != nil {
-			return err
+			db.logf("journal@remove removing @%d %q", ofd.Num, err)
 		}
 	}
 
